@@ -37,7 +37,7 @@ Definition from_escape_table (escape b : byte) : res char_escape :=
   else if escape =? E_UU then Ok (CEAsciiControl b)
   else Panic.
 
-(* static HEX_DIGITS: [u8; 16] = *b"0123456789abcdef" *)
+(* static HEX_DIGITS: [u8; 16] = the ASCII digits 0123456789abcdef *)
 Definition HEX_DIGITS : bytes := [48; 49; 50; 51; 52; 53; 54; 55; 56; 57; 97; 98; 99; 100; 101; 102].
 
 (* Formatter::write_char_escape: the one buffer written *)
